@@ -298,13 +298,14 @@ func (l *commitLog) AppendMessageSet(ms []byte) ([]int64, error) {
 }
 
 func (l *commitLog) append(segment *segment, ms []byte, entries []*entry) ([]int64, error) {
-	if err := segment.WriteMessageSet(ms, entries); err != nil {
-		return nil, err
-	}
 	var (
 		lastLeaderEpoch = l.leaderEpochCache.LastLeaderEpoch()
 		offsets         = make([]int64, len(entries))
 	)
+	// Assign the epoch offsets before the messages are written. If the process
+	// dies in between, the entry of an epoch with no message is dropped when
+	// the log is reopened, whereas a message whose epoch was not recorded
+	// would leave the epoch's start offset wrong for good.
 	for i, entry := range entries {
 		// Check if message is in a new leader epoch.
 		if entry.LeaderEpoch > lastLeaderEpoch {
@@ -315,6 +316,9 @@ func (l *commitLog) append(segment *segment, ms []byte, entries []*entry) ([]int
 			lastLeaderEpoch = entry.LeaderEpoch
 		}
 		offsets[i] = entry.Offset
+	}
+	if err := segment.WriteMessageSet(ms, entries); err != nil {
+		return nil, err
 	}
 	return offsets, nil
 }
